@@ -15,6 +15,10 @@ from . import analysis
 rule("C11.a", "persisted attributes (written in __init__, not popped by the writer) are accepted by the constructor", floor=40)
 rule("C11.b", "attributes written outside __init__ (scratch state of set-up) are removed by the writer", floor=2)
 rule("C11.c", "every constructor parameter is persisted under its own name (stored from that parameter, or forwarded to super().__init__)", floor=60)
+rule("C11.k", "what a constructor keeps from a table is JSON-stable: a DataFrame given as parameter is stored as a dict of arrays / lists (column "
+              "-> values: to_numpy(), to_dict(orient='list')) - not as to_dict() with its default orient, a dict of dicts keyed by the row labels: "
+              "integer keys come back from JSON as strings, and the set-up, which addresses the rows by position, raises KeyError on the loaded "
+              "object", floor=0)
 rule("C11.d", "Timegrid writer keys are constructor parameters and every state-determining parameter is written", floor=5)
 rule("C06.j", "plant / CHP classes: every constructor parameter is stored or forwarded to the base class constructor (last_dispatch, ramps, "
               "runtimes ... reach the attributes the set-up reads)", floor=20)
@@ -217,7 +221,7 @@ def _projection(p, ci):
     return None
 
 
-@analysis("serialization", ["C11.a", "C11.b", "C11.c", "C11.d", "C11.e", "C11.f", "C11.g", "C20.k", "C06.j", "C05.l", "C02.g", "C16.j"])
+@analysis("serialization", ["C11.a", "C11.b", "C11.c", "C11.d", "C11.e", "C11.f", "C11.g", "C20.k", "C06.j", "C05.l", "C02.g", "C16.j", "C11.k"])
 def run(ctx):
     p = ctx.p
     ser, writer, reader = _find_hooks(ctx)
@@ -523,3 +527,23 @@ def run(ctx):
                     k = au.const_str(n.slice)
                     ctx.ob("C11.g", "Portfolio", "reader key %s" % k, k in kv,
                            "the Portfolio reader uses key %r which the writer never writes" % k, node=n)
+
+
+    # =========================================================================== C11.k tables kept by constructors
+    n_k = 0
+    for ci in sorted(p.classes.values(), key=lambda c: c.name):
+        init = ci.methods.get("__init__")
+        if init is None:
+            continue
+        for st in au.walk_stmts(init.body):
+            for c in au.walk_own(st):
+                if isinstance(c, ast.Call) and au.method_name(c) == "to_dict" and isinstance(c.func, ast.Attribute):
+                    orient = au.arg_or_kw(c, 0, "orient")
+                    n_k += 1
+                    ok = orient is not None and au.const_str(orient) in ("list", "series", "split", "tight") or (orient is not None and au.const_str(orient) == "records")
+                    ctx.ob("C11.k", init, au.short(c, 70), ok,
+                           "%s uses the default orient: {column: {row label: value}} - a dict of dicts with the (integer) row labels as keys. It works in memory "
+                           "(orders['start'][0]) but JSON object keys are strings: after save / load the keys are '0', '1', ... and the set-up raises "
+                           "KeyError(0) - an order book given as data frame can be optimised before saving and not after loading" % au.short(c, 50), node=c)
+    if n_k == 0:
+        ctx.ob("C11.k", "package", "tables kept by constructors", True, ok_detail="no constructor keeps DataFrame.to_dict()")
